@@ -186,6 +186,7 @@ func (e *Encoder) appendDefaultMetadata() {
 	e.buf = append(e.buf[:0], ivg.Magic...)
 	e.buf = append(e.buf, 0x00) // There are zero metadata chunks.
 	e.mode = modeStyling
+	e.lod1 = positiveInfinity
 }
 
 func (e *Encoder) CSel() uint8 {
